@@ -125,6 +125,64 @@ def alias_variant(ctx, s):
                       what="a delayed feedback received through a negated alias (expression negated) gives other rows: %s" % (bad[:2],))
 
 
+def member_variant(ctx, s):
+    """two members that differ only in a constant input (given before t0 as well) entering a delayed expression:
+    the delay rows of member 0 are those of the problem in which both members have member 0's series"""
+    import random
+    r2 = random.Random("m" + json.dumps(s, sort_keys=True, default=str))
+    times = [Fraction(t) for t in s["times"]]
+    base = json.loads(json.dumps(s))
+    base["ensemble_size"] = 2
+    for key in ("param_values", "constant_input_values", "history"):
+        first = base.get(key, [{}])[0]
+        base[key] = [json.loads(json.dumps(first)), json.loads(json.dumps(first))]
+    base.pop("probabilities", None)
+    stamps = [times[0] - 3, times[0] - 2, times[0] - 1] + times
+    base["constant_inputs"] = list(base.get("constant_inputs", [])) + ["cd"]
+    A = [str(tr.dy(r2)) for _ in stamps]
+    B = [str(tr.dy(r2) + 20) for _ in stamps]
+    d = base["delayed_feedback"][r2.randrange(len(base["delayed_feedback"]))]
+    d[0] = ["+", d[0], ["v", "cd"]]
+    # a history that reaches back far enough for every variable (complete history)
+    coll = base["states"] + base["algebraics"] + base["controls"]
+    for m in range(2):
+        for v in coll:
+            if v.startswith("dly"):
+                continue
+            base["history"][m][v] = {"times": [str(t) for t in stamps[:4]], "values": [str(tr.dy(r2)) for _ in range(4)]}
+    base["history"][1] = json.loads(json.dumps(base["history"][0]))
+
+    def rows(series_1):
+        sp = json.loads(json.dumps(base))
+        for m, vals in enumerate((A, series_1)):
+            sp["constant_input_values"][m]["cd"] = {"times": [str(t) for t in stamps], "values": vals}
+        p = problems.make_base(sp)()
+        _, _, _, _, _, _, nlp = p.transcribe()
+        nx = nlp["x"].shape[0]
+        X = ca.DM([float(Fraction(random.Random(7).randint(-12, 12), 4)) for _ in range(nx)])
+        g = [float(v) for v in np.array(ca.Function("g", [nlp["x"]], [nlp["g"]])(X)).ravel()]
+        sp_ = ca.jacobian(nlp["g"], nlp["x"]).sparsity()
+        f = ca.Function("i", [p.solver_input], [ca.vertcat(p.state_vector(d[1], 0)), ca.vertcat(p.state_vector(d[1], 1))])
+        i0, i1 = ([int(round(float(x))) for x in np.array(o).ravel()] for o in f(ca.DM(list(range(nx)))))
+        own = []
+        for r in range(sp_.size1()):
+            cols = set(sp_.get_col()[sp_.row() == r]) if False else {c for c in range(nx) if sp_.has_nz(r, c)}
+            if cols & set(i0) and not cols & set(i1):
+                own.append(r)
+        return g, own, sp
+    try:
+        g_ab, own, sp = rows(B)
+        g_aa, own2, _ = rows(A)
+    except Exception as e:  # noqa: BLE001
+        ctx.count("member_variant_exception_" + type(e).__name__)
+        return
+    ctx.count("member_variants")
+    bad = [(r, g_aa[r], g_ab[r]) for r in own if not tr.close(g_aa[r], g_ab[r], 1e-9)]
+    if own != own2 or bad:
+        ctx.violation("delay/other-member-data", {"spec": sp, "rows_of_member_0": own, "differences": bad[:5]},
+                      what="the delay rows of member 0 change with member 1's constant input series: %s" % (bad[:2],))
+
+
 def model_term(s, X):
     ei = tr.env_index(s)
     q = lambda v: gq(tr.fx(Fraction(v)))  # noqa: E731
@@ -163,6 +221,8 @@ def run(ctx):
     for si, s in enumerate(specs):
         if not replay and si % 3 == 0:
             alias_variant(ctx, s)
+        if not replay and si % 3 == 1:
+            member_variant(ctx, s)
         try:
             X, g, lb, ub = delay_rows_impl(s, ctx.rng)
         except Exception as e:
